@@ -455,3 +455,59 @@ Example C07_file_zoom_example :
 Proof.
   eexists. split; [vm_compute; reflexivity|]. intros [|]; vm_compute; repeat split; reflexivity.
 Qed.
+
+(* ================= the IEEE run has the exact statistics on a checkable domain =================
+   (Proofs/FloatExact.v, Proofs/FloatExactZoom.v.)  C07_stats holds for every mode but leaves sum / sum of
+   squares as folds in that mode; C07_stats_exact reads them as rational sums for the non-rounding mode.
+   Here the same is proved for the IEEE mode -- the one the implementation is compared with bit for bit --
+   when the stored values are integer multiples of 2^G ([vgrid E G]; E is a unit below every exponent) and
+   the chromosome's  sum len*|val|  and  sum len*val^2  stay below 2^53 in units 2^G resp. 2^(2G). *)
+From BT Require Proofs.FloatExact Proofs.FloatExactZoom Proofs.C06FileFloat.
+
+Theorem C07_stats_ieee_on_grid : forall E G ips size chrom len vals st, 1 <= size -> wf_vals len vals ->
+  FloatExact.grid_ok E G -> Forall (FloatExact.vgrid E G) vals ->
+  (FloatExact.gabs E G vals < FloatExact.P53)%Z -> (FloatExact.gsq E G vals < FloatExact.P53)%Z ->
+  zoom_chrom ieee ips size chrom vals zstate0 = Ok st ->
+  Forall (fun r => let cs := contribs (z_start r) (z_end r) vals in
+            exact_stats r cs /\
+            FloatExact.gval E G (su_sum (z_sum r)) (FloatExact.ksum plen (fun p => FloatExact.gk E G (p_val p)) cs) /\
+            FloatExact.gval (E + E) (G + G) (su_sumsq (z_sum r)) (FloatExact.ksq plen (fun p => FloatExact.gk E G (p_val p)) cs))
+         (concat (zs_out st)).
+Proof. exact FloatExactZoom.zoom_stats_ieee_on_grid. Qed.
+Print Assumptions C07_stats_ieee_on_grid.
+
+(* record by record against the exact run: same counts and extremes, sums denote the same numbers *)
+Theorem C07_ieee_exact_records : forall E G ips size chrom len vals st st', 1 <= size -> wf_vals len vals ->
+  FloatExact.grid_ok E G -> Forall (FloatExact.vgrid E G) vals ->
+  (FloatExact.gabs E G vals < FloatExact.P53)%Z -> (FloatExact.gsq E G vals < FloatExact.P53)%Z ->
+  zoom_chrom ieee ips size chrom vals zstate0 = Ok st -> zoom_chrom exact ips size chrom vals zstate0 = Ok st' ->
+  Forall (fun r => forall r', In r' (concat (zs_out st')) -> z_start r' = z_start r -> z_end r' = z_end r ->
+            su_items (z_sum r) = su_items (z_sum r') /\ su_bases (z_sum r) = su_bases (z_sum r') /\
+            su_min (z_sum r) = su_min (z_sum r') /\ su_max (z_sum r) = su_max (z_sum r') /\
+            C06FileFloat.same_num (su_sum (z_sum r)) (su_sum (z_sum r')) /\
+            C06FileFloat.same_num (su_sumsq (z_sum r)) (su_sumsq (z_sum r')))
+         (concat (zs_out st)).
+Proof. exact FloatExactZoom.zoom_ieee_exact_records. Qed.
+Print Assumptions C07_ieee_exact_records.
+
+(* the generator domain (multiples of 1/8, |v| <= 1024, fewer than 2^24 bases): decidable *)
+Theorem C07_stats_ieee_in_domain : forall ips size chrom len vals st, 1 <= size -> wf_vals len vals ->
+  FloatExact.in_exact_domain vals = true ->
+  zoom_chrom ieee ips size chrom vals zstate0 = Ok st ->
+  Forall (fun r => exact_stats r (contribs (z_start r) (z_end r) vals)) (concat (zs_out st)).
+Proof. exact FloatExactZoom.zoom_stats_ieee_in_domain. Qed.
+Print Assumptions C07_stats_ieee_in_domain.
+
+(* what the reader returns for such a statistic: a grid number below 2^24 grid units survives the narrowing
+   to f32, the pattern and its decoding ([stat_read ieee x], C07_zoom_record_codec): the exact sum comes back *)
+Theorem C07_stat_read_on_grid : forall E G x k, (E <= 0 -> E <= G -> -149 <= G <= 104 -> Z.abs k < 2 ^ 24 ->
+  FloatExact.gval E G x k -> C06FileFloat.same_num (stat_read ieee x) x)%Z.
+Proof. exact FloatExactZoom.stat_read_on_grid. Qed.
+Print Assumptions C07_stat_read_on_grid.
+
+Example C07_example_in_domain : FloatExact.in_exact_domain ex_vals = true /\
+  exists st, zoom_chrom ieee 2 10 0 ex_vals zstate0 = Ok st /\
+    map (fun r => (FloatExact.gk FloatExact.dom_E FloatExact.dom_G (su_sum (z_sum r)),
+                   FloatExact.gk (FloatExact.dom_E + FloatExact.dom_E) (FloatExact.dom_G + FloatExact.dom_G) (su_sumsq (z_sum r))))
+        (concat (zs_out st)) = [(134, 2476); (52, 1352); (-8, 64)]%Z.
+Proof. split; [vm_compute; reflexivity|]. eexists. split; [vm_compute; reflexivity|]. vm_compute. reflexivity. Qed.
